@@ -182,6 +182,22 @@ def one_tree(tspec, acc, rnd, sample=False, forced=None):
         base, bcase = scan("exclude")
         attribute_scan_findings(base, {"external": "C10"}, bcase)
         inc, icase = scan("include", exclude_external_libraries=False)
+        # the same include-mode request with root_path / module_path spelled relative to the working directory (a
+        # conftest.py run from the project's parent): the external side does not depend on how the directories are spelled
+        cwd = os.getcwd()
+        rcase = {"kind": "config", "spec": tspec, "mp": mp_rel, "label": "include:relative-paths", "kw": {"exclude_external_libraries": False}, "relative_paths": True}
+        try:
+            os.chdir(os.path.dirname(root))
+            HUB.case = rcase
+            get_evaluable_architecture(os.path.basename(root), os.path.join(os.path.basename(root), mp_rel) if mp_rel else os.path.basename(root), exclude_external_libraries=False)
+            rel = HUB.scan_events[-1]
+        finally:
+            os.chdir(cwd)
+        acc.evaluated()
+        acc.count("include_scans_with_relative_paths")
+        attribute_scan_findings(rel, {"external": "C10", "hierarchy": "C10"}, rcase)
+        if rel.state != inc.state:
+            HUB.violation("C10", "external-modules-depend-on-the-spelling-of-root_path", "include-mode scans of the same directories, spelled as absolute paths and relative to the working directory, differ", {"mp": mp_rel, "nodes_only_with_absolute_paths": sorted(inc.nodes - rel.nodes)[:12], "nodes_only_with_relative_paths": sorted(rel.nodes - inc.nodes)[:12], "imports_diff": sorted(inc.imps ^ rel.imps)[:12]})
         externals_seen = {n for n in inc.nodes if not internal(n)}
         internal_names = {n for n in base.nodes if "." in n} or {"proj"}
         configs = [(inc, icase)]
@@ -301,7 +317,7 @@ def replay(case, acc):
 
 def floors(acc, tier):
     why = []
-    for c, n in (("config_comparisons", 200), ("patterns_matching_internal_names", 20), ("patterns_matching_externals", 20), ("nested_external_nodes", 50), ("include_scans_with_file_exclusion_matching_an_external_name", 50), ("module_path_with_imported_prefix_sibling", 30), ("trees_with_1000+_import_statements", 4), ("scans_with_external_patterns_in_another_container", 50), ("pattern_tuples_used_as_file_and_as_external_exclusions", 50)):
+    for c, n in (("config_comparisons", 200), ("patterns_matching_internal_names", 20), ("patterns_matching_externals", 20), ("nested_external_nodes", 50), ("include_scans_with_file_exclusion_matching_an_external_name", 50), ("module_path_with_imported_prefix_sibling", 30), ("trees_with_1000+_import_statements", 4), ("scans_with_external_patterns_in_another_container", 50), ("pattern_tuples_used_as_file_and_as_external_exclusions", 50), ("include_scans_with_relative_paths", 100)):
         if acc.counters[c] < n:
             why.append(f"{c}: only {acc.counters[c]}")
     if acc.counters["scan_model_errors"]:
